@@ -165,11 +165,19 @@ func c05Programs(maxLen int, present bool) [][]string {
 
 // c05Scenarios enumerates, simplest first, every multiset of k client programs
 // (clients are symmetric) of length ≤ maxLen for both initial states, with the
-// written values assigned by rotation through c05Values starting at offset off
-// (pairwise distinct while there are ≤ 4 writes); same=true writes one single
-// value everywhere instead (ABA / same-value compare-and-swap).
-func c05Scenarios(backend, mode string, k, maxLen int, offs []int, same bool) []c05Scenario {
+// written values chosen by assign:
+//
+//	rot    rotation through c05Values starting at offset off (pairwise
+//	       distinct while there are ≤ 4 writes)
+//	same   one single value everywhere (same-value compare-and-swap)
+//	dupnew initial value X = off, every client write the same Y = off+1: several
+//	       clients holding X replace it with byte-identical new values, or a
+//	       stale Replace writes the value that is currently stored
+//	aba    initial value X, every client's writes alternate Y, X, Y, ...:
+//	       the register value recurs (X -> Y -> X)
+func c05Scenarios(backend, mode string, k, maxLen int, offs []int, assign string) []c05Scenario {
 	var out []c05Scenario
+	nv := len(c05Values)
 	for _, present := range []bool{false, true} {
 		progs := c05Programs(maxLen, present)
 		idx := make([]int, k)
@@ -179,23 +187,37 @@ func c05Scenarios(backend, mode string, k, maxLen int, offs []int, same bool) []
 				for _, off := range offs {
 					sc := c05Scenario{Backend: backend, Mode: mode, Init: -1}
 					n := 0
-					next := func() int {
-						if same {
-							return off % len(c05Values)
+					// client = -1 for the initial value; j = index of the write within the client
+					next := func(client, j int) int {
+						switch assign {
+						case "same":
+							return off % nv
+						case "dupnew":
+							if client < 0 {
+								return off % nv
+							}
+							return (off + 1) % nv
+						case "aba":
+							if client < 0 || j%2 == 1 {
+								return off % nv
+							}
+							return (off + 1) % nv
 						}
-						v := (off + n) % len(c05Values)
+						v := (off + n) % nv
 						n++
 						return v
 					}
 					if present {
-						sc.Init = next()
+						sc.Init = next(-1, 0)
 					}
-					for _, pi := range idx {
+					for ci, pi := range idx {
 						var p []c05Op
+						j := 0
 						for _, kk := range progs[pi] {
 							o := c05Op{K: kk}
 							if kk != "F" {
-								o.V = next()
+								o.V = next(ci, j)
+								j++
 							}
 							p = append(p, o)
 						}
@@ -476,22 +498,34 @@ func c05DirectRules(h []c05Rec, distinct bool) []string {
 			}
 		}
 	}
-	// A successful Replace must have been handed the stored value; at most one
-	// successful Replace per predecessor value (version).
-	if distinct {
-		pred := map[string]c05Rec{}
+	// At most one successful Replace per predecessor value: every successful
+	// Replace from X consumes one installation of X (a successful - or, after a
+	// lost response, possibly applied - Create(X) / Replace(->X)), so there cannot
+	// be more successful Replaces from X than installations of X. With pairwise
+	// distinct values this is "at most one"; it stays sound when values recur.
+	{
+		consumed := map[string][]c05Rec{}
+		installed := map[string]int{}
 		for _, r := range h {
-			if r.Kind != "R" || r.Res != "ok" {
-				continue
+			if r.Kind == "R" && r.Res == "ok" {
+				consumed[string(r.Old)] = append(consumed[string(r.Old)], r)
 			}
-			if p, dup := pred[string(r.Old)]; dup {
-				bad = append(bad, fmt.Sprintf("two Replaces succeeded on the same predecessor value %s: %s and %s", c05ValName(r.Old), p, r))
+			if (r.Kind == "R" || r.Kind == "C") && (r.Res == "ok" || (r.Res == "err" && r.Maybe)) {
+				installed[string(r.New)]++
 			}
-			pred[string(r.Old)] = r
 		}
-		// An operation that returned an error after a lost response may have been
-		// applied; if it was it also consumed its predecessor, which is what the
-		// linearizability check accounts for. Nothing to add here.
+		var keys []string
+		for x := range consumed {
+			keys = append(keys, x)
+		}
+		sort.Strings(keys)
+		for _, x := range keys {
+			rs := consumed[x]
+			if len(rs) > installed[x] {
+				bad = append(bad, fmt.Sprintf("%d Replaces succeeded on the same predecessor value %s although that value was stored only %d time(s): two Replaces succeeded on the same predecessor value / a Replace succeeded although the stored value was not the one fetched: %s and %s",
+					len(rs), c05ValName([]byte(x)), installed[x], rs[len(rs)-2+btoi(len(rs) < 2)], rs[len(rs)-1]))
+			}
+		}
 	}
 	// A Fetch started after a successful write returned sees that value or a later one.
 	for _, w := range h {
@@ -581,9 +615,13 @@ func c05LinzSelfTest() error {
 			{Kind: "F", Call: 3, Ret: 4, Res: "notfound"}}, false},
 		{"ABA with equal values is legal", []c05Rec{
 			{Kind: "C", New: a, Call: 1, Ret: 2, Res: "ok"},
+			{Kind: "R", Old: a, New: b, Val: b, Call: 3, Ret: 4, Res: "ok"},
+			{Kind: "R", Old: b, New: a, Val: a, Call: 5, Ret: 6, Res: "ok"},
+			{Kind: "R", Old: a, New: c, Val: c, Call: 7, Ret: 8, Res: "ok"}}, true},
+		{"two replaces from one predecessor with byte-identical new values", []c05Rec{
+			{Kind: "C", New: a, Call: 1, Ret: 2, Res: "ok"},
 			{Kind: "R", Old: a, New: b, Call: 3, Ret: 4, Res: "ok"},
-			{Kind: "R", Old: b, New: a, Call: 5, Ret: 6, Res: "ok"},
-			{Kind: "R", Old: a, New: c, Call: 7, Ret: 8, Res: "ok"}}, true},
+			{Kind: "R", Old: a, New: b, Call: 5, Ret: 6, Res: "ok"}}, false},
 	}
 	for _, t := range tcs {
 		got, _ := c05Linearizable(t.h)
@@ -600,6 +638,12 @@ func c05LinzSelfTest() error {
 	}
 	if bad := c05DirectRules(tcs[6].h, true); len(bad) == 0 {
 		return fmt.Errorf("direct rules self-test: overwriting create not flagged")
+	}
+	if bad := c05DirectRules(tcs[12].h, false); len(bad) == 0 {
+		return fmt.Errorf("direct rules self-test: double replace with identical new values not flagged")
+	}
+	if bad := c05DirectRules(tcs[11].h, false); len(bad) != 0 {
+		return fmt.Errorf("direct rules self-test: legal ABA history flagged: %v", bad)
 	}
 	if bad := c05DirectRules(tcs[0].h, true); len(bad) != 0 {
 		return fmt.Errorf("direct rules self-test: clean history flagged: %v", bad)
